@@ -111,6 +111,8 @@ impl<T: AtomicInt> ConcurrentUnionFind<T> {
                 let mut r = r;
                 loop {
                     l = Self::find_impl(buf, l);
+                    #[cfg(egglog_verif)]
+                    egglog_concurrency::verif::point(32);
                     r = Self::find_impl(buf, r);
                     if l != r {
                         // We do "union by min": common in egraphs due to the
@@ -120,6 +122,8 @@ impl<T: AtomicInt> ConcurrentUnionFind<T> {
                         // work for rebuilding.
                         let parent = cmp::min(l, r);
                         let child = cmp::max(l, r);
+                        #[cfg(egglog_verif)]
+                        egglog_concurrency::verif::point(30);
                         match buf[T::as_usize(child)].cas(child, parent) {
                             Ok(_) => return (parent, child),
                             Err(_) => continue,
@@ -143,6 +147,8 @@ impl<T: AtomicInt> ConcurrentUnionFind<T> {
         let mut next = load!(cur);
         let mut grand = load!(next);
         while next != grand {
+            #[cfg(egglog_verif)]
+            egglog_concurrency::verif::point(31);
             let _ = buf[T::as_usize(cur)].cas(next, grand);
             // This is what the paper calls "two-try" splitting.
             // next = load!(cur);
